@@ -13,7 +13,10 @@ def encode_timedelta(obj):
 
 def encode_datetime(obj):
     units, _ = np.datetime_data(obj.dtype)
-    reference = obj[0]
+    # works for any shape: 0-d, empty and n-d arrays have no `obj[0]` scalar; NaT cannot serve as reference
+    flat = obj.reshape(-1)
+    valid = flat[~np.isnat(flat)]
+    reference = valid[0] if valid.size else np.datetime64(0, units)
 
     encoding = {"reference": str(reference), "units": units}
     encoded = (obj - reference).astype("int64").tolist()
